@@ -17,11 +17,11 @@ echo "TESTS: $T"
 # the demo was written against a scratch worktree: point it at /repo
 sed "s#sys.path.insert(0, *['\"][^'\"]*['\"])#sys.path.insert(0, '$R')#" "$DEMO" > /tmp/_seeded_demo_$$.py
 ( cd /tmp && PYTHONPATH=$(dirname "$DEMO") timeout 600 /venv/bin/python /tmp/_seeded_demo_$$.py >/dev/null 2>&1 ); echo "DEMO with change: exit=$?"
-cd /verif
+V=${VERIF_DIR:-/verif}; cd $V
 for c in $CHECKS; do
   out=$(VERIF_REPO=$R timeout 3000 ./check $c --tier $TIER 2>&1); r=$?
   echo "$c exit=$r violations=$(echo "$out" | grep -c '^VIOLATION') $(echo "$out" | grep 'clause=' | head -3 | cut -c1-200 | tr '\n' '|')"
-  rm -rf /verif/replays/$c
+  rm -rf $V/replays/$c
 done
 cd $R && git checkout -- . && trap - EXIT
 ( cd /tmp && PYTHONPATH=$(dirname "$DEMO") timeout 600 /venv/bin/python /tmp/_seeded_demo_$$.py >/dev/null 2>&1 ); echo "DEMO without change: exit=$?"
